@@ -39,7 +39,8 @@ Ids(ps) == { ps[k].id : k \in DOMAIN ps }
 -----------------------------------------------------------------------------
 (* 1. The filters as functions: which particles survive, and with which coordinates *)
 
-\* out of bounds: the centre, or the box of the given size around it (half-width ceil(box/2)), inside [0, dim)
+\* out of bounds: the centre (whatever box size accompanies the call), or - boundary type 'whole' - the box of the
+\* given size around it (half-width ceil(box/2)), inside [0, dim)
 HalfWidth(op) == IF op.kind = "whole" THEN ((op.box + 1) \div 2) * U ELSE 0
 LowerOK(p, h) == \A i \in Axes : Cpl(p)[i] - h >= 0
 UpperOK(p, h, dim) == \A i \in Axes : Cpl(p)[i] + h < dim[i] * U
